@@ -544,7 +544,8 @@ func genPathData(r *core.Rand) string {
 // ---------------------------------------------------------------- structure relation
 
 type svgOpts struct {
-	inline bool
+	inline        bool
+	otherStyleLng bool // the root declares a default style language other than CSS: type="text/css" on a style element says something
 }
 
 var svgRootDefaults = map[string]string{"version": "1.1", "x": "0", "y": "0", "preserveAspectRatio": "xMidYMid meet", "baseProfile": "none", "contentScriptType": "application/ecmascript", "contentStyleType": "text/css"}
@@ -567,7 +568,7 @@ func svgKeepAttr(root bool, el string, a xAttr, val string, o svgOpts) bool {
 			return false
 		}
 	}
-	if el == "style" && a.Name == "type" && val == "text/css" {
+	if el == "style" && a.Name == "type" && val == "text/css" && !o.otherStyleLng {
 		return false
 	}
 	return true
@@ -750,6 +751,11 @@ func svgCompare(in, out *svgNode, path string, o svgOpts, depth int) string {
 	}
 	here := path + "/" + in.name
 	root := depth == 1 && in.name == "svg"
+	if root {
+		if v, ok := in.vals["contentStyleType"]; ok && !strings.EqualFold(strings.TrimSpace(v), "text/css") {
+			o.otherStyleLng = true
+		}
+	}
 	// attributes
 	seen := map[string]bool{}
 	for _, a := range in.attrs {
@@ -1145,6 +1151,11 @@ func C05(run *core.Run) {
 		`<svg xmlns="http://www.w3.org/2000/svg"><defs><path id="p" d="M0 0L1 1"/></defs><use xmlns:xlink="http://www.w3.org/1999/xlink" xlink:href="#p"/><use xmlns:xlink="http://www.w3.org/1999/xlink" xlink:href="#p" x="5"/></svg>`,
 		`<svg xmlns="http://www.w3.org/2000/svg"><g><image xmlns:xlink="http://www.w3.org/1999/xlink" xlink:href="a.png" width="5"/></g><g><image xmlns:xlink="http://www.w3.org/1999/xlink" xlink:href="b.png" width="5"/><a xmlns:xlink="http://www.w3.org/1999/xlink" xlink:href="c.html"><text>t</text></a></g></svg>`,
 		`<svg xmlns="http://www.w3.org/2000/svg"><g xmlns:xlink="http://www.w3.org/1999/xlink"><use xlink:href="#a"/></g><g xmlns:xlink="http://www.w3.org/1999/xlink"><use xlink:href="#b"/></g></svg>`,
+		// a style element that says it is CSS in a document whose default style language is something else
+		`<svg xmlns="http://www.w3.org/2000/svg" contentStyleType="text/x-foo"><style type="text/css">rect{fill:red}</style><style>whatever</style><rect width="1"/></svg>`,
+		// empty containers that are referenced: only an empty defs can go
+		`<svg xmlns="http://www.w3.org/2000/svg"><defs/><mask id="m"/><pattern id="p"/><symbol id="s"/><marker id="k"/><clipPath id="c"/><rect width="9" height="9" mask="url(#m)" fill="url(#p) red" clip-path="url(#c)"/><use href="#s"/><path d="M0 0L9 9" marker-end="url(#k)"/></svg>`,
+		`<svg xmlns="http://www.w3.org/2000/svg"><g id="g"/><linearGradient id="l"/><filter id="f"/><symbol viewBox="0 0 1 1"/><rect width="9" height="9" filter="url(#f)" fill="url(#l)"/><use href="#g"/></svg>`,
 	} {
 		run.Eval()
 		v, out := c05Judge(doc, false)
